@@ -28,6 +28,16 @@ Eval vm_compute in (k_fix_lookup the_code, k_fix_constref the_code, k_fix_nonj2 
 Example C08_list_inputs_repairs_present :
   k_fix_lookup the_code = true /\ k_fix_constref the_code = true /\ k_fix_nonj2 the_code = true /\ k_fix_suptpl the_code = true.
 Proof. exact the_repairs_present. Qed.
+(* likewise the closure repairs (.py resources, symbolically linked sub-directories): `eff_trig_tpl` in (3) is then only
+   "__init__.py or byte code is in the template closure" *)
+Example C08_list_inputs_closure_repairs_present : k_fix_pyres the_code = true /\ k_fix_linkdir the_code = true.
+Proof. exact the_closure_repairs_present. Qed.
+Example C08_py_resource_and_linked_template_listed :
+  path_in [[112]; [120]] (listed (w_cfg SNever false (Some w_tpl_pyres) None) w_inputs_plain) = true
+  /\ path_in [[112]; [120]] (listed (w_cfg SNever false (Some w_tpl_linked) None) w_inputs_plain) = true
+  /\ eff_trig_tpl the_code (w_cfg SNever false (Some w_tpl_pyres) None) w_inputs_plain = false
+  /\ eff_trig_tpl the_code (w_cfg SNever false (Some w_tpl_linked) None) w_inputs_plain = false.
+Proof. exact example_pyres_and_linked_listed. Qed.
 
 (* (1) For ALL configurations (language data, flags, overrides, template directories), ALL input sets and ALL file systems:
    if the real run (same options, no listing/dry-run flag) succeeds from an empty output tree, then --list-outputs with the same
@@ -62,10 +72,10 @@ Print Assumptions C08_list_modes_pure.
    `ns_clash` (an invalid namespace file stem, or a namespace file whose path is a type's file: ValueError before anything is
    listed) and `rejected`
    are the two configurations in which no mode does anything at all.
-   The two remaining hypotheses are NOT harmless; each is the trigger of a recorded finding with a witness below:
-   `eff_trig_tpl` -- some template of the closure is a file get_templates does not enumerate: a .py resource
-   (F-LIST-INPUTS-PYRES) or a file below a symbolically linked sub-directory (F-LIST-INPUTS-SYMLINKDIR); with
-   design_notes/C08_list_inputs_closure_fix.patch in the tree (k_fix_pyres, k_fix_linkdir) only `__init__.py` and byte code remain;
+   The two remaining hypotheses:
+   `eff_trig_tpl` -- some template of the closure is a file get_templates does not enumerate: with the closure repairs in the
+   tree (obligation C08_list_inputs_closure_repairs_present; F-LIST-INPUTS-PYRES and -SYMLINKDIR are history) that is only
+   `__init__.py` or byte code of a templates package -- an explicit exclusion;
    `trig_sup_refs` -- a rendered support template (a --support-templates override) refers to further templates
    (F-LIST-INPUTS-SUPREFS: the support listing names the rendered resources only). *)
 Theorem C08_list_inputs_complete :
@@ -86,20 +96,6 @@ Theorem C08_list_inputs_complete_partial :
   forall f, exists out, run the_code (li_of c) i f = (f, out, Ok) /\ In x out.
 Proof. exact list_inputs_partial_thm. Qed.
 Print Assumptions C08_list_inputs_complete_partial.
-
-Theorem C08_list_inputs_pyres_refuted : k_fix_pyres the_code = false -> k_fix_nonj2 the_code = true ->
-  let c := w_cfg SNever false (Some w_tpl_pyres) None in let x := [[112]; [120]] in
-  eff_trig_tpl the_code c w_inputs_plain = true
-  /\ path_in x (influence_set the_code c w_inputs_plain) = true /\ path_in x (listed c w_inputs_plain) = false.
-Proof. exact list_inputs_pyres_refuted_w. Qed.
-Print Assumptions C08_list_inputs_pyres_refuted.
-
-Theorem C08_list_inputs_linkdir_refuted : k_fix_linkdir the_code = false ->
-  let c := w_cfg SNever false (Some w_tpl_linked) None in let x := [[112]; [120]] in
-  eff_trig_tpl the_code c w_inputs_plain = true
-  /\ path_in x (influence_set the_code c w_inputs_plain) = true /\ path_in x (listed c w_inputs_plain) = false.
-Proof. exact list_inputs_linkdir_refuted_w. Qed.
-Print Assumptions C08_list_inputs_linkdir_refuted.
 
 Theorem C08_list_inputs_suprefs_refuted :
   let c := w_cfg SAsNeeded false None (Some w_sup_dir_refs) in let x := [[100]; [104]] in
